@@ -76,8 +76,32 @@ type SoftUser struct {
 	DeletedAt gorm.DeletedAt
 }
 
-var AllModels = []interface{}{&Audit{}, &Company{}, &Profile{}, &Toy{}, &Pet{}, &Lang{}, &User{}, &SoftUser{}, &SoftPet{}}
-var AllTables = []string{"audits", "companies", "profiles", "toys", "pets", "langs", "users", "user_langs", "soft_users", "soft_pets"}
+var AllModels = []interface{}{&Audit{}, &Company{}, &Profile{}, &Toy{}, &Pet{}, &Lang{}, &User{}, &SoftUser{}, &SoftPet{}, &Memo{}, &Draft{}}
+var AllTables = []string{"audits", "companies", "profiles", "toys", "pets", "langs", "users", "user_langs", "soft_users", "soft_pets", "memos", "drafts"}
+
+// Memo implements only the After* hooks, Draft only the Before* hooks (a hook must be detected on
+// its own, not through its counterpart).
+type Memo struct {
+	ID   int64
+	Name string
+	V    int64
+}
+type Draft struct {
+	ID   int64
+	Name string
+	V    int64
+}
+
+func (m *Memo) AfterCreate(tx *gorm.DB) error { return hook(tx, "AfterCreate", "Memo", m.Name) }
+func (m *Memo) AfterUpdate(tx *gorm.DB) error { return hook(tx, "AfterUpdate", "Memo", m.Name) }
+func (m *Memo) AfterSave(tx *gorm.DB) error   { return hook(tx, "AfterSave", "Memo", m.Name) }
+func (m *Memo) AfterDelete(tx *gorm.DB) error { return hook(tx, "AfterDelete", "Memo", m.Name) }
+func (m *Memo) AfterFind(tx *gorm.DB) error   { return hook(tx, "AfterFind", "Memo", m.Name) }
+
+func (d *Draft) BeforeSave(tx *gorm.DB) error   { return hook(tx, "BeforeSave", "Draft", d.Name) }
+func (d *Draft) BeforeCreate(tx *gorm.DB) error { return hook(tx, "BeforeCreate", "Draft", d.Name) }
+func (d *Draft) BeforeUpdate(tx *gorm.DB) error { return hook(tx, "BeforeUpdate", "Draft", d.Name) }
+func (d *Draft) BeforeDelete(tx *gorm.DB) error { return hook(tx, "BeforeDelete", "Draft", d.Name) }
 
 // HookEv is one hook invocation.
 type HookEv struct {
